@@ -301,6 +301,34 @@ pub fn tick() {
     }
 }
 
+static CUR: std::sync::OnceLock<std::fs::File> = std::sync::OnceLock::new();
+/// Record the sub-case about to be executed (kind = the replay key, e.g. "image_hex"), so that a run
+/// that kills or hangs the worker can still be replayed exactly by the supervisor's report.
+pub fn note_case(kind: &str, bytes: &[u8]) {
+    if let Some(f) = CUR.get() {
+        let mut head = [0u8; 40];
+        let k = kind.as_bytes();
+        head[..8].copy_from_slice(&(bytes.len() as u64).to_le_bytes());
+        head[8..8 + k.len().min(32)].copy_from_slice(&k[..k.len().min(32)]);
+        let _ = f.write_at(&head, 0);
+        let _ = f.write_at(&bytes[..bytes.len().min(200_000)], 40);
+    }
+}
+fn read_cur(p: &std::path::Path) -> Value {
+    match std::fs::read(p) {
+        Ok(b) if b.len() >= 40 => {
+            let n = u64::from_le_bytes(b[..8].try_into().unwrap()) as usize;
+            let kind = String::from_utf8_lossy(&b[8..40]).trim_end_matches('\0').to_string();
+            if kind.is_empty() || b.len() < 40 + n.min(200_000) {
+                return Value::Null;
+            }
+            let hex: String = b[40..40 + n.min(200_000)].iter().map(|x| format!("{:02x}", x)).collect();
+            json!({ kind: hex })
+        }
+        _ => Value::Null,
+    }
+}
+
 // ------------------------------------------------------------------ worker (child process)
 pub struct WorkerArgs {
     pub tier: Tier,
@@ -355,6 +383,7 @@ pub fn worker(check: &dyn Check, a: WorkerArgs) -> i32 {
     install_panic_hook();
     let start = Instant::now();
     let _ = HB.set(std::fs::OpenOptions::new().create(true).write(true).open(&a.hb).expect("hb file"));
+    let _ = CUR.set(std::fs::OpenOptions::new().create(true).write(true).truncate(true).open(a.hb.with_extension("cur")).expect("cur file"));
     let mut out = std::fs::OpenOptions::new().create(true).append(true).open(&a.out).expect("out file");
     let nbatches = (a.runs + a.batch - 1) / a.batch;
     let mut b = a.shard;
@@ -555,11 +584,12 @@ pub fn supervise(check: &dyn Check, a: SupArgs) -> SupResult {
     if !a.quiet {
         println!("VERIF_SEED={} check={} tier={} runs<={} jobs={} budget={}s", a.master, check.id(), a.tier.name(), runs, of, secs);
     }
-    let mut fatal: Vec<(u64, String, String)> = Vec::new(); // (index, class, detail)
+    let mut fatal: Vec<(u64, String, String, Value)> = Vec::new(); // (index, class, detail, replay extra)
     let mut skip: Vec<u64> = Vec::new();
     let mut children: Vec<Child> = (0..of).map(|k| spawn_worker(&exe, check, &a, k, of, runs, batch, 0, &skip, &dir, secs)).collect();
     let hang = Duration::from_secs(check.hang_secs());
     let mut harness_error: Option<String> = None;
+    let mut stop_early = false;
     loop {
         let mut alive = 0;
         let mut respawn: Vec<(usize, u64)> = Vec::new();
@@ -574,7 +604,7 @@ pub fn supervise(check: &dyn Check, a: SupArgs) -> SupResult {
                     } else {
                         // died: attribute to the run named by the heartbeat
                         let (idx, _cnt) = read_hb(&c.hb);
-                        fatal.push((idx, "abort".into(), format!("worker died ({})", st)));
+                        fatal.push((idx, "abort".into(), format!("worker died ({})", st), read_cur(&c.hb.with_extension("cur"))));
                         skip.push(idx);
                         respawn.push((ci, idx / batch));
                     }
@@ -589,7 +619,7 @@ pub fn supervise(check: &dyn Check, a: SupArgs) -> SupResult {
                         let _ = c.proc.kill();
                         let _ = c.proc.wait();
                         alive -= 1;
-                        fatal.push((idx, "hang".into(), format!("run made no progress for {}s", hang.as_secs())));
+                        fatal.push((idx, "hang".into(), format!("run made no progress for {}s", hang.as_secs()), read_cur(&c.hb.with_extension("cur"))));
                         skip.push(idx);
                         respawn.push((ci, idx / batch));
                     }
@@ -600,8 +630,9 @@ pub fn supervise(check: &dyn Check, a: SupArgs) -> SupResult {
             }
         }
         for (ci, b) in respawn {
-            if fatal.len() > 200 {
-                harness_error = Some("more than 200 fatal runs; giving up".into());
+            if fatal.len() >= 12 {
+                // enough evidence: stop exploring, report what was found
+                stop_early = true;
                 break;
             }
             let shard = children[ci].shard;
@@ -609,7 +640,7 @@ pub fn supervise(check: &dyn Check, a: SupArgs) -> SupResult {
             children[ci] = spawn_worker(&exe, check, &a, shard, of, runs, batch, b, &skip, &dir, remaining);
             alive += 1;
         }
-        if alive == 0 || harness_error.is_some() {
+        if alive == 0 || harness_error.is_some() || stop_early {
             break;
         }
         std::thread::sleep(Duration::from_millis(50));
@@ -672,11 +703,11 @@ pub fn supervise(check: &dyn Check, a: SupArgs) -> SupResult {
             }
         }
     }
-    for (idx, class, why) in &fatal {
+    for (idx, class, why, extra) in &fatal {
         // fatal runs: re-describe through the check (no shrinking possible in-process)
         viols.push(json!({
             "property": check.id(), "tier": a.tier.name(), "master_seed": a.master, "run_index": idx, "run_seed": run_seed(a.master, check.id(), *idx),
-            "class": class, "signature": format!("{}@run", class), "detail": why, "wtape": Value::Null, "ftape": Value::Null, "extra": Value::Null,
+            "class": class, "signature": format!("{}@run", class), "detail": why, "wtape": Value::Null, "ftape": Value::Null, "extra": extra,
             "event_log_digest": "", "artefact": Value::Null, "shrink_reexecutions": 0,
         }));
     }
@@ -802,6 +833,38 @@ pub fn replay(check: &dyn Check, file: &Value) -> i32 {
         None => {
             println!("replay: no violation (recorded: class={} signature={})", want_class, want_sig);
             0
+        }
+    }
+}
+
+/// Replay in a child process, so that a recorded hang / abort is reproduced as such instead of taking the caller down
+pub fn replay_contained(check: &dyn Check, file: &Value, path: &str) -> i32 {
+    let exe = std::env::current_exe().expect("exe");
+    let mut child = std::process::Command::new(exe).arg("replay").arg(path).arg("--inner").stdin(std::process::Stdio::null()).spawn().expect("spawn replay");
+    let limit = Duration::from_secs(check.hang_secs() + 5);
+    let t0 = Instant::now();
+    let want = file["class"].as_str().unwrap_or("");
+    loop {
+        match child.try_wait() {
+            Ok(Some(st)) => {
+                if let Some(c) = st.code() {
+                    return c;
+                }
+                println!("replay: the process died ({}) (recorded: class={})", st, want);
+                println!("VIOLATION property={} replay=<reproduced: abort>", check.id());
+                return 1;
+            }
+            Ok(None) => {
+                if t0.elapsed() > limit {
+                    let _ = child.kill();
+                    let _ = child.wait();
+                    println!("replay: no result after {}s (recorded: class={})", limit.as_secs(), want);
+                    println!("VIOLATION property={} replay=<reproduced: hang>", check.id());
+                    return 1;
+                }
+                std::thread::sleep(Duration::from_millis(20));
+            }
+            Err(_) => return 2,
         }
     }
 }
